@@ -195,7 +195,10 @@ impl SyncBlocker {
 
     #[inline]
     pub fn unpark(&self) {
-        self.blocker.unpark();
+        // set the flag before the wake-up token: a waiter that is woken by a cancel
+        // it ignores (`Mutex::lock` inside `Condvar::wait`) consumes the token, finds
+        // the flag not set yet, parks again and would never be woken
         self.unparked.store(true, Ordering::SeqCst);
+        self.blocker.unpark();
     }
 }
